@@ -1,21 +1,30 @@
 From RsdnsModel Require Import Base Cursor Names Labels Header Tracker RData Reader.
 From RsdnsModel.Spec Require Import LinearPass.
-From RsdnsModel.Proofs Require Import Latch TrackerRefine SpecExec ParseSpec ReaderRefine.
+From RsdnsModel.Proofs Require Import Latch ReaderTotal LatchFull TrackerRefine SpecExec ParseSpec ReaderRefine.
 From RsdnsModel.Properties Require Import C09.
 Open Scope N_scope.
-Check (C09_stays_exhausted_partial : forall msg r, r_done r = true ->
+Check (C09_stays_exhausted : forall msg r, r_done r = true ->
   (forall single as_ref, rd_question msg single as_ref r = (r, Err ReaderDone)) /\
   rd_skip_questions msg r = (r, Err ReaderDone) /\
   rd_marker msg r = (r, Err ReaderDone) /\ rd_header_ref msg r = (r, Err ReaderDone) /\
   (forall nk, rd_header_n msg nk r = (r, Err ReaderDone)) /\
+  (forall mk, pos (r_cur r) = rdata_pos mk ->
+     rd_skip_data mk r = (r, Err ReaderDone) /\ rd_data_bytes msg mk r = (r, Err ReaderDone) /\
+     (forall ty, read_rdata msg ty (m_rdlen mk) <> None -> rd_data msg ty mk r = (r, Err ReaderDone)) /\
+     rd_opt mk r = (r, Err ReaderDone)) /\
   (forall s, rd_seek msg s r = (r, Err ReaderDone)) /\
   rd_questions_count r = Ok (ONum 0) /\ rd_records_count r = Ok (ONum 0) /\
   (forall s, rd_records_count_in s r = Ok (ONum 0))).
-Check (C09_error_latches_partial : forall msg r, r_done r = false ->
-  (is_ok (snd (rd_marker msg r)) = false -> r_done (fst (rd_marker msg r)) = true) /\
-  (is_ok (snd (rd_header_ref msg r)) = false -> r_done (fst (rd_header_ref msg r)) = true) /\
-  (forall nk, is_ok (snd (rd_header_n msg nk r)) = false -> r_done (fst (rd_header_n msg nk r)) = true) /\
-  (is_ok (snd (rd_skip_questions msg r)) = false -> r_done (fst (rd_skip_questions msg r)) = true)).
+Check (C09_error_latches : forall msg r, RInv msg r -> r_done r = false ->
+  (forall single as_ref, latched (rd_question msg single as_ref r)) /\
+  latched (rd_skip_questions msg r) /\
+  latched (rd_marker msg r) /\ latched (rd_header_ref msg r) /\ (forall nk, latched (rd_header_n msg nk r)) /\
+  (forall mk, mk_ok r mk -> pos (r_cur r) = rdata_pos mk ->
+     latched (rd_skip_data mk r) /\ latched (rd_data_bytes msg mk r) /\
+     (forall ty, read_rdata msg ty (m_rdlen mk) <> None -> latched (rd_data msg ty mk r)) /\
+     (m_rtype mk = T_OPT -> latched (rd_opt mk r))) /\
+  latched (rd_header msg r) /\
+  (forall s, rd_seek msg s r = (r, Err (RecordsSectionOffsetUnknown s)) \/ latched (rd_seek msg s r))).
 Check (C09_tracker_refines : forall nq an ns ar P,
   nq <= 65535 -> an <= 65535 -> ns <= 65535 -> ar <= 65535 -> (forall k, 1 <= P k <= 65535) ->
   forall ops tr idx hw idx' hw',
@@ -83,4 +92,4 @@ Check (C09_linear_pass_gives_chains : forall msg l, linear_of msg = Some l ->
   lenN msg <= 65535 /\ 12 <= lenN msg /\ l_nq l <= 65535 /\ l_an l <= 65535 /\ l_ns l <= 65535 /\ l_ar l <= 65535 /\
   exists e1 e2, chain msg question_at (fun _ => True) 12 (l_qs l) e1 /\
                 chain msg record_at (fun it => a_data_ok it = true) e1 (l_rs l) e2).
-Print Assumptions C09_stays_exhausted_partial. Print Assumptions C09_error_latches_partial. Print Assumptions C09_tracker_refines. Print Assumptions C09_tracker_init. Print Assumptions C09_counts. Print Assumptions C09_seek. Print Assumptions C09_record_section. Print Assumptions C09_tracker_example. Print Assumptions C09_question_parse_is_spec. Print Assumptions C09_record_parse_is_spec. Print Assumptions C09_reader_refines. Print Assumptions C09_reader_start. Print Assumptions C09_linear_pass_gives_chains.
+Print Assumptions C09_stays_exhausted. Print Assumptions C09_error_latches. Print Assumptions C09_tracker_refines. Print Assumptions C09_tracker_init. Print Assumptions C09_counts. Print Assumptions C09_seek. Print Assumptions C09_record_section. Print Assumptions C09_tracker_example. Print Assumptions C09_question_parse_is_spec. Print Assumptions C09_record_parse_is_spec. Print Assumptions C09_reader_refines. Print Assumptions C09_reader_start. Print Assumptions C09_linear_pass_gives_chains.
